@@ -5,6 +5,10 @@ root = os.path.dirname(os.path.dirname(os.path.abspath(__file__)))
 rows = list(csv.DictReader(open(os.path.join(root, "seeded", "RESULTS.tsv")), delimiter="\t"))
 print("| change | check | outcome | VIOLATION lines | reproduced natively | undecided | what it changes (site) |")
 print("|---|---|---|---|---|---|---|")
+caught_by = {}
+for r in rows:
+    if r.get("exit") == "1":
+        caught_by.setdefault(r["mutant"], []).append(r["check"])
 for r in rows:
     n = r["mutant"]
     try:
@@ -14,4 +18,6 @@ for r in rows:
     summ = " ".join(str(m.get("summary", "")).split())[:150].replace("|", "/")
     ex = r.get("exit", "")
     out = {"1": "caught", "0": "not caught" if r.get("undecided", "0") in ("0", "") else "undecided (exit 0)", "3": "checker error"}.get(ex, ex)
+    if ex == "0" and caught_by.get(n):
+        out = "not by this check - caught by " + ", ".join(caught_by[n]) + " (owner of the edited function)"
     print(f"| {n} | {r['check']} | {out} | {r.get('violations','')} | {r.get('reproduced_natively','')} | {r.get('undecided','')} | {summ} |")
